@@ -28,6 +28,9 @@ OBLIGATIONS.append(dict(name="unpack_file_list_growth", harness="harness/C06_fil
     included_sources=["bin/rdsquashfs/src/fill_files.c"], incdirs=["bin/rdsquashfs/src"], defines=dict(NL=1, ADIR=0, GROW=1), unwind=8, malloc_fail=True,
     leak=True, tiers=["quick", "thorough"], timeout=300, fp_map={"destroy": ["d_out", "d_in"], "flush": ["flush_stub"]}, reach=["grown", "alloc_failed"],
     functions=["add_file, clear_file_list (bin/rdsquashfs/src/fill_files.c)"], bound="first insertion into the empty list (256 slots), any allocation may fail"))
+# harness/C06_treesort.c (tree_sort / list_sort duplicate rejection, C06 O-1) is kept but NOT registered: the recursive merge sort over a
+# heap-linked list makes every list pointer symbolic after the first merge; probed shapes (2..3 entries, symbolic or concrete names, recursion
+# bounds 2..3) produce 20k..200k VCCs and run out of memory or time (> 300 s).  The seeded change C06_b3_D1 is therefore not detected.
 ASSUMPTIONS = ["kernel path resolution is outside; the obligation is on the strings and flags handed to the kernel", "system calls succeed (error paths belong to C13)",
                "xattr restore (lsetxattr) uses the same path variable as the other attribute calls (by inspection) and is not executed here"]
 OUTSIDE = ["pre-existing symlinks inside the unpack root", "mkdir_p/chdir of the unpack root itself", "duplicate-name rejection (tree_sort) - see DESIGN.md", "Windows paths"]
